@@ -4,6 +4,7 @@
 package bounds
 
 import (
+	"go/constant"
 	"fmt"
 	"go/token"
 	"go/types"
@@ -77,6 +78,7 @@ func (l Lin) String() string {
 
 // Ctx converts SSA values of one function to linear terms.
 type Ctx struct {
+	inCopy bool
 	Fn     *ssa.Function
 	names  map[ssa.Value]string
 	nonneg map[string]bool
@@ -134,6 +136,9 @@ func (c *Ctx) LenOf(v ssa.Value) Lin {
 	case *ssa.Const:
 		if x.Value == nil {
 			return konst(0)
+		}
+		if x.Value.Kind() == constant.String {
+			return konst(int64(len(constant.StringVal(x.Value))))
 		}
 	case *ssa.Convert:
 		// string <-> []byte keep the length
@@ -246,6 +251,20 @@ func (c *Ctx) lin1(v, v0 ssa.Value) Lin {
 	case *ssa.Call:
 		if b, ok := x.Call.Value.(*ssa.Builtin); ok && b.Name() == "len" {
 			return c.LenOf(x.Call.Args[0])
+		}
+		if b, ok := x.Call.Value.(*ssa.Builtin); ok && b.Name() == "copy" && !c.inCopy {
+			// n := copy(dst, src) is len(src) where len(dst) >= len(src) is known at the call
+			c.inCopy = true
+			dst, src := c.LenOf(x.Call.Args[0]), c.LenOf(x.Call.Args[1])
+			facts := c.FactsToLin(guard.BlockFacts(x.Block()))
+			okE, _ := c.Entails(facts, dst.add(src, -1))
+			c.inCopy = false
+			if okE {
+				return src
+			}
+			a := c.name(v)
+			c.nonneg[a] = true
+			return atom(a)
 		}
 		if b, ok := x.Call.Value.(*ssa.Builtin); ok && b.Name() == "cap" {
 			a := "cap(" + c.name(x.Call.Args[0]) + ")"
